@@ -37,6 +37,7 @@ def step (line : String) : String :=
   | "obbclip" :: args => handleBBox "obbclip" args
   | "obbrect" :: args => handleBBox "obbrect" args
   | "fitto" :: args => handleCli "fitto" args
+  | "exportplan" :: args => handleCli "exportplan" args
   | "exportts" :: args => handleExport "exportts" args
   | "findid" :: args => handleExport "findid" args
   | "gbox" :: args => handleBBox "gbox" args
@@ -44,6 +45,7 @@ def step (line : String) : String :=
   | "abst" :: args => handleBBox "abst" args
   | "collect" :: args => handleRefs "collect" args
   | "writenum" :: args => handleRefs "writenum" args
+  | "esctext" :: args => handleRefs "esctext" args
   | "escattr" :: args => handleRefs "escattr" args
   | "finputs" :: args => handleRefs "finputs" args
   | "stops" :: args => handleValues "stops" args
